@@ -150,7 +150,7 @@ func c18r3(r *R) {
 	}
 	var n int
 	eachInstr(rb, func(ins ssa.Instruction) {
-		if a, ok := ins.(*ssa.Alloc); ok && a.Comment == bufName {
+		if a, ok := ins.(*ssa.Alloc); ok && localName(a) == bufName {
 			if typeStr(a.Type()) == "*[10]byte" {
 				n = 10
 			}
